@@ -8,6 +8,7 @@
 import Robotools.Props.C06
 import Robotools.Props.C18
 import Robotools.Model.World
+import Robotools.Proofs.FlowLemmas
 namespace Robotools.C07
 open Robotools
 
@@ -21,28 +22,41 @@ def planFlow (plan : List PlanStep) (s d : String) : Rat :=
 def reqFlow (ts : List Triple) (s d : String) : Rat :=
   (ts.map fun t => if t.src = s ∧ t.dst = d then t.vol else 0).sum
 
+private theorem planFlow_eq (plan : List PlanStep) (s d : String) :
+    planFlow plan s d = flowOf s d plan := by
+  unfold planFlow flowOf
+  congr 1
+
+private theorem reqFlow_eq (ts : List Triple) (s d : String) : reqFlow ts s d = reqOf s d ts := rfl
+
 /-- Flows aggregated per (source well, destination well) equal exactly the requested ones —
     with splitting (`auto_split`, any `max_volume > 0`) … -/
 theorem flows_split (M : Rat) (byDest : Bool) (ts : List Triple) (hM : 0 < M) (hnn : ∀ t ∈ ts, 0 ≤ t.vol) (s d : String) :
     planFlow (transferPlan true M byDest ts) s d = reqFlow ts s d := by
-  sorry
+  rw [planFlow_eq, reqFlow_eq]
+  exact flowOf_transferPlan true M byDest ts (fun _ => hM) hnn s d
 
 /-- … and without. -/
 theorem flows_nosplit (M : Rat) (byDest : Bool) (ts : List Triple) (hnn : ∀ t ∈ ts, 0 ≤ t.vol) (s d : String) :
     planFlow (transferPlan false M byDest ts) s d = reqFlow ts s d := by
-  sorry
+  rw [planFlow_eq, reqFlow_eq]
+  exact flowOf_transferPlan false M byDest ts (fun h => by cases h) hnn s d
 
 /-- Independent of the order in which the triples are listed … -/
 theorem flows_perm (autoSplit : Bool) (M : Rat) (byDest : Bool) (ts ts' : List Triple) (hM : 0 < M)
     (hnn : ∀ t ∈ ts, 0 ≤ t.vol) (hp : ts.Perm ts') (s d : String) :
     planFlow (transferPlan autoSplit M byDest ts) s d = planFlow (transferPlan autoSplit M byDest ts') s d := by
-  sorry
+  have hnn' : ∀ t ∈ ts', 0 ≤ t.vol := fun t ht => hnn t (hp.mem_iff.mpr ht)
+  rw [planFlow_eq, planFlow_eq, flowOf_transferPlan autoSplit M byDest ts (fun _ => hM) hnn s d,
+    flowOf_transferPlan autoSplit M byDest ts' (fun _ => hM) hnn' s d]
+  exact reqOf_perm s d hp
 
 /-- … and of the partition_by mode. -/
 theorem flows_mode_indep (autoSplit : Bool) (M : Rat) (ts : List Triple) (hM : 0 < M)
     (hnn : ∀ t ∈ ts, 0 ≤ t.vol) (s d : String) :
     planFlow (transferPlan autoSplit M true ts) s d = planFlow (transferPlan autoSplit M false ts) s d := by
-  sorry
+  rw [planFlow_eq, planFlow_eq, flowOf_transferPlan autoSplit M true ts (fun _ => hM) hnn s d,
+    flowOf_transferPlan autoSplit M false ts (fun _ => hM) hnn s d]
 
 /-- Discipline: every pair is immediately followed by the tip action, and every tip action
     immediately follows a pair. -/
@@ -51,21 +65,25 @@ theorem discipline (autoSplit : Bool) (M : Rat) (byDest : Bool) (ts : List Tripl
     (∀ s d v, plan[i]? = some (.pair s d v) → plan[i + 1]? = some .action)
     ∧ (plan[i + 1]? = some .action → ∃ s d v, plan[i]? = some (.pair s d v))
     ∧ plan[0]? ≠ some .action := by
-  sorry
+  exact (blocks_transferPlan autoSplit M byDest ts).discipline i
 
 /-- Every emitted step is positive, and with `auto_split` none exceeds `max_volume`. -/
 theorem pair_volume_bounds (M : Rat) (byDest : Bool) (ts : List Triple) (hM : 0 < M) (s d : String) (v : Rat)
     (h : PlanStep.pair s d v ∈ transferPlan true M byDest ts) : 0 < v ∧ v ≤ M := by
-  sorry
+  exact pair_bounds_transferPlan M byDest ts hM s d v h
 
 /-- A break record closes every column group in which a volume had to be split. -/
 theorem break_closes (g : List Triple) (vls : List (List Rat)) (h : 1 < maxLen vls) :
     (groupPlan g vls).getLast? = some .brk := by
-  sorry
+  unfold groupPlan
+  simp only [h, if_true]
+  exact List.getLast?_concat
 
 theorem no_break_without_split (g : List Triple) (vls : List (List Rat)) (h : maxLen vls ≤ 1) :
     PlanStep.brk ∉ groupPlan g vls := by
-  sorry
+  have hn : ¬ 1 < maxLen vls := by omega
+  unfold groupPlan
+  simp [hn]
 
 /-- The requested tip action. -/
 theorem action_records (cfg : Cfg) :
@@ -73,7 +91,18 @@ theorem action_records (cfg : Cfg) :
     ∧ (cfg.ditiMode = true → ∀ n, actionMicros cfg (.scheme n) = [.emit .washDiti])
     ∧ (cfg.ditiMode = false → ∀ n : Nat, n ∈ [1, 2, 3, 4] → actionMicros cfg (.scheme n) = [.emit (.wash n)])
     ∧ (cfg.ditiMode = false → ∀ n : Int, (n < 1 ∨ 4 < n) → actionMicros cfg (.scheme n) = [.fail .valueErr]) := by
-  sorry
+  refine ⟨rfl, rfl, ?_, ?_, ?_⟩
+  · intro hd n
+    simp [actionMicros, washMicros, hd]
+  · intro hd n hn
+    simp only [List.mem_cons, List.mem_nil_iff, or_false] at hn
+    rcases hn with rfl | rfl | rfl | rfl <;> simp [actionMicros, washMicros, hd, Spec.washSchemes]
+  · intro hd n hn
+    simp only [actionMicros, washMicros, hd, Bool.false_eq_true, if_false]
+    rw [if_neg]
+    simp only [Spec.washSchemes, List.contains_eq_mem, List.mem_cons, List.mem_nil_iff, or_false,
+      decide_eq_true_eq]
+    omega
 
 /-- Both records of a pair carry the same volume, liquid class and tip mask (they are prepared
     from the same volume and keyword arguments). -/
@@ -81,7 +110,11 @@ theorem pair_same_fields (a₁ a₂ : ADArgs) (M : Option Rat) (f₁ f₂ : ADFi
     (hv : a₁.vol = a₂.vol) (hl : a₁.liquidClass = a₂.liquidClass) (ht : tipMask a₁.tip = tipMask a₂.tip)
     (h₁ : prepareAD a₁ M = .ok f₁) (h₂ : prepareAD a₂ M = .ok f₂) :
     f₁.vol = f₂.vol ∧ f₁.liquidClass = f₂.liquidClass ∧ f₁.tip = f₂.tip := by
-  sorry
+  obtain ⟨hv₁, hl₁, ht₁⟩ := prepareAD_ok a₁ M f₁ h₁
+  obtain ⟨hv₂, hl₂, ht₂⟩ := prepareAD_ok a₂ M f₂ h₂
+  refine ⟨by rw [hv₁, hv₂, hv], by rw [hl₁, hl₂, hl], ?_⟩
+  rw [ht, ht₂] at ht₁
+  exact (Except.ok.inj ht₁).symm
 
 /-- Argument lists of incompatible lengths or negative volumes are rejected, not silently dropped. -/
 theorem rejects_lengths (cfg : Cfg) (S D : Labware) (src dst : Nat) (sw dw : Arr String) (vols : Arr Rat)
@@ -90,7 +123,10 @@ theorem rejects_lengths (cfg : Cfg) (S D : Labware) (src dst : Nat) (sw dw : Arr
          ¬((broadcast1 sw.flattenF n).length = (broadcast1 dw.flattenF n).length
             ∧ (broadcast1 dw.flattenF n).length = (broadcast1 vols.flattenF n).length)) :
     compileTransfer cfg S src sw D dst dw vols label wash pb kw = [.fail .reject] := by
-  sorry
+  unfold compileTransfer
+  rw [if_neg hdev]
+  simp only at h ⊢
+  rw [if_pos h]
 
 theorem rejects_negative (cfg : Cfg) (S D : Labware) (src dst : Nat) (sw dw : Arr String) (vols : Arr Rat)
     (label : Option String) (wash : WashArg) (pb : String) (kw : KW) (hdev : cfg.dev ≠ .base)
@@ -99,13 +135,22 @@ theorem rejects_negative (cfg : Cfg) (S D : Labware) (src dst : Nat) (sw dw : Ar
             ∧ (broadcast1 dw.flattenF n).length = (broadcast1 vols.flattenF n).length))
     (hneg : ∃ v ∈ broadcast1 vols.flattenF (max sw.flattenF.length (max dw.flattenF.length vols.flattenF.length)), v < 0) :
     compileTransfer cfg S src sw D dst dw vols label wash pb kw = [.fail .valueErr] := by
-  sorry
+  unfold compileTransfer
+  rw [if_neg hdev]
+  simp only at hlen ⊢
+  rw [if_neg (not_not.mpr hlen)]
+  have hany : (broadcast1 vols.flattenF (max sw.flattenF.length (max dw.flattenF.length vols.flattenF.length))).any
+      (· < 0) = true := by
+    obtain ⟨v, hv, hneg⟩ := hneg
+    exact List.any_eq_true.mpr ⟨v, hv, by simpa using hneg⟩
+  rw [if_pos hany]
 
 /-- The generic base worklist refuses transfers. -/
 theorem base_refuses_transfer (cfg : Cfg) (S D : Labware) (src dst : Nat) (sw dw : Arr String) (vols : Arr Rat)
     (label : Option String) (wash : WashArg) (pb : String) (kw : KW) (hdev : cfg.dev = .base) :
     compileTransfer cfg S src sw D dst dw vols label wash pb kw = [.fail .reject] := by
-  sorry
+  unfold compileTransfer
+  rw [if_pos hdev]
 
 example : transferPlan true 950 false [⟨"A01", "B01", 2000⟩]
     = [.pair "A01" "B01" 667, .action, .pair "A01" "B01" 667, .action, .pair "A01" "B01" 666, .action, .brk] := by
